@@ -1,28 +1,29 @@
 // Machinery of the zoo + the factory table itself.  See zoo.hpp.
-#include "zoo/zoo.hpp"
-#include "zoo/describe.hpp"
-
-#include <deque>
+#include "zoo/zoo_impl.hpp"
 
 namespace zoo {
    namespace {
-      std::vector<Row>& table()
+      constexpr int NUNITS = 5;
+      std::vector<Row>* units()
       {
-         static std::vector<Row> t;
-         return t;
+         static std::vector<Row> u[NUNITS];
+         return u;
       }
-      struct Reg {
-         Reg(const char* n, void (*f)(Ctx&)) { table().push_back({ n, f }); }
-      };
    }
 
-   const std::vector<Row>& rows() { return table(); }
+   void register_row(int unit, const char* name, void (*build)(Ctx&)) { units()[unit].push_back({ name, build }); }
+
+   const std::vector<Row>& rows()
+   {
+      static std::vector<Row> all = [] { std::vector<Row> v; for (int u = 0; u < NUNITS; ++u) for (auto& r : units()[u]) v.push_back(r); return v; }();
+      return all;
+   }
 
    void guarded(Ctx& c, std::string& out, const char* name, const std::function<std::string()>& f) { field(c, out, name, f); }
 
    void build_all(Ctx& c)
    {
-      for (auto& r : table()) {
+      for (auto& r : rows()) {
          c.current_row = r.name;
          try {
             r.build(c);
@@ -40,65 +41,16 @@ namespace zoo {
       ++c.round;
    }
 
-   template<class Iface, class Impl>
-   Entry& Ctx::node(const Impl& n, const char* variant, bool generative)
-   {
-      const Iface& i = n;                      // the documented interface; ill-formed if the factory returns something else
-      Entry e;
-      e.row = current_row + variant;
-      e.iface = leaf_name[leaf_of<Iface>::value];
-      e.node = static_cast<const ipr::Node*>(&i);
-      e.leaf = leaf_of<Iface>::value;
-      e.sink = sink_of<Iface>(false);
-      e.sink_classic = sink_of<Iface>(true);
-      e.is_expr = std::is_base_of_v<ipr::Expr, Iface>;
-      e.is_type = std::is_base_of_v<ipr::Type, Iface>;
-      e.is_stmt = std::is_base_of_v<ipr::Stmt, Iface>;
-      e.is_decl = std::is_base_of_v<ipr::Decl, Iface>;
-      if constexpr (std::is_base_of_v<ipr::Expr, Iface>) e.as_expr = &i;
-      if constexpr (std::is_base_of_v<ipr::Type, Iface>) e.as_type = &i;
-      e.generative = generative;
-      const Iface* p = &i;
-      e.observe = [p](Ctx& c) { return describe_as<Iface>(c, *p); };
-      namer.names.insert({ static_cast<const void*>(e.node), "k" + std::to_string(entries.size()) + "." + e.iface });
-      entries.push_back(std::move(e));
-      if (rep) rep->count("transitions");
-      if (on_register) on_register(*this, entries.size() - 1);
-      return entries.back();
-   }
-
-   template<class Iface>
-   Entry& Ctx::artefact(const Iface& a, const char* iface, const char* variant, std::function<std::string(Ctx&)> obs)
-   {
-      Entry e;
-      e.row = current_row + variant;
-      e.iface = iface;
-      e.observe = std::move(obs);
-      e.generative = true;
-      namer.names.insert({ static_cast<const void*>(&a), "a" + std::to_string(entries.size()) + "." + iface });
-      entries.push_back(std::move(e));
-      if (rep) rep->count("transitions");
-      if (on_register) on_register(*this, entries.size() - 1);
-      return entries.back();
-   }
-
    // ------------------------------------------------------------------------------------------------
    // Operand pools
    namespace {
-      struct Owned {       // artefacts the zoo itself must keep alive (tokens are not made by any defined factory)
-         std::deque<ipr::impl::Token> tokens;
-         std::deque<ipr::impl::ref_sequence<ipr::Attribute>> attr_seqs;
-         std::deque<ipr::impl::Annotation> annotations;
-         std::deque<ipr::impl::Comment> comments;
-         std::deque<std::unique_ptr<ipr::impl::Module>> modules;
-      };
       std::map<Ctx*, std::unique_ptr<Owned>> owned_by;
-      Owned& owned(Ctx& c)
-      {
-         auto& p = owned_by[&c];
-         if (not p) p = std::make_unique<Owned>();
-         return *p;
-      }
+   }
+   Owned& owned(Ctx& c)
+   {
+      auto& p = owned_by[&c];
+      if (not p) p = std::make_unique<Owned>();
+      return *p;
    }
 
    Ctx::~Ctx() { owned_by.erase(this); }
@@ -161,4 +113,36 @@ namespace zoo {
    }
 }
 
-#include "zoo/rows.inc"
+namespace zoo {
+   std::string Ctx::name_of(const ipr::Node& n)
+   {
+      auto s = namer.of(static_cast<const void*>(&n));
+      if (not s.empty()) return s;
+      return "anon" + std::to_string(int(n.category));
+   }
+
+
+   // Dispatch on the dynamic interface through accept().
+   struct Describer : ipr::Visitor {
+      Ctx& c;
+      std::string out;
+      explicit Describer(Ctx& ctx) : c{ ctx } { }
+#define X(N) void visit(const ipr::N& n) override { out = describe_as<ipr::N>(c, n); }
+      VF_CATEGORIES(X)
+#undef X
+      void visit(const ipr::Node& n) override { out = "abstract-sink:Node cat=" + std::to_string(int(n.category)); }
+      void visit(const ipr::Expr& n) override { out = "abstract-sink:Expr cat=" + std::to_string(int(n.category)); }
+      void visit(const ipr::Name& n) override { out = "abstract-sink:Name cat=" + std::to_string(int(n.category)); }
+      void visit(const ipr::Type& n) override { out = "abstract-sink:Type cat=" + std::to_string(int(n.category)); }
+      void visit(const ipr::Directive& n) override { out = "abstract-sink:Directive cat=" + std::to_string(int(n.category)); }
+      void visit(const ipr::Stmt& n) override { out = "abstract-sink:Stmt cat=" + std::to_string(int(n.category)); }
+      void visit(const ipr::Decl& n) override { out = "abstract-sink:Decl cat=" + std::to_string(int(n.category)); }
+   };
+
+   std::string observe(Ctx& c, const ipr::Node& n)
+   {
+      Describer d{ c };
+      n.accept(d);
+      return d.out;
+   }
+}
